@@ -74,6 +74,9 @@ def getitem(ex, state, arr, idx, line, for_store=False):
             elif isinstance(it, (SArr, SList)):
                 ok = False
                 break
+            elif isinstance(it, z3.ExprRef):
+                from vt.e1.values import note_index_use
+                note_index_use(it, ro[ax])
             ax += 1
         if ok:
             out += list(ro[ax:])
@@ -273,8 +276,54 @@ def elementwise(ex, state, operands, line):
 #   K / B  rank axis of a ket (plain) / bra (conjugated) solution core,  O  rank axis of an operator (or right-hand side) core,
 #   k / b  physical axis of a ket / bra core,  r / c  row / column axis of an operator core (a right-hand side core has r),
 #   1  an axis of length 1 introduced by indexing.  None: unknown.  Contractions may only pair the legs listed in ROLE_PAIRS.
-ROLE_PAIRS = {('K', 'K'), ('B', 'B'), ('O', 'O'), ('k', 'c'), ('c', 'k'), ('b', 'r'), ('r', 'b'), ('1', '1')}
+#   p  index of a basis function (the physical leg of a transformed data tensor: pairs with the ket leg k of a coefficient core),
+#   s  sample index (a batch axis).  A merged axis carries the tuple of the roles it was merged from, in order.
+ROLE_PAIRS = {('K', 'K'), ('B', 'B'), ('O', 'O'), ('k', 'c'), ('c', 'k'), ('b', 'r'), ('r', 'b'), ('1', '1'), ('k', 'p'), ('p', 'k'), ('s', 's')}
 ROLE_CONJ = {'K': 'B', 'B': 'K', 'k': 'b', 'b': 'k'}
+
+
+class MRole:
+    """role of a merged axis: the (role, length) of the axes it was merged from, in C order.  Equality is by composition."""
+    def __init__(self, parts):
+        self.parts = tuple(parts)
+
+    @property
+    def roles(self):
+        return tuple(r for r, _ in self.parts)
+
+    def __eq__(self, other):
+        return isinstance(other, MRole) and self.roles == other.roles
+
+    def __hash__(self):
+        return hash(self.roles)
+
+    def __repr__(self):
+        return '(' + '*'.join(str(r) for r in self.roles) + ')'
+
+    def map(self, table):
+        return MRole([(table.get(r, r), n) for r, n in self.parts])
+
+
+ROLE_DUAL = {'p': 'k', 'k': 'p', 'c': 'k', 'r': 'b'}       # the leg that pairs with a given leg (solution of a least-squares system)
+
+
+def conj_role(x):
+    return x.map(ROLE_CONJ) if isinstance(x, MRole) else ROLE_CONJ.get(x, x)
+
+
+def dual_role(x):
+    return x.map(ROLE_DUAL) if isinstance(x, MRole) else ROLE_DUAL.get(x, x)
+
+
+def pair_ok(x, y):
+    """may an axis of role x be contracted with an axis of role y?  (None: unknown - no claim)"""
+    if x is None or y is None:
+        return True
+    if isinstance(x, MRole) or isinstance(y, MRole):
+        if not (isinstance(x, MRole) and isinstance(y, MRole)):
+            return False            # a merged axis against a single leg
+        return len(x.roles) == len(y.roles) and all(pair_ok(u, v) for u, v in zip(x.roles, y.roles))
+    return (x, y) in ROLE_PAIRS
 
 
 def roles_of(a):
@@ -293,7 +342,7 @@ def conj(ex, state, a, line):
     r.contig = z3.If(a.contig, z3.BoolVal(True), fresh('ct', 'bool'))      # a ufunc: the layout of the operand is kept
     ro = roles_of(a)
     if ro is not None:
-        set_roles(r, [ROLE_CONJ.get(x, x) if x is not None else None for x in ro])
+        set_roles(r, [conj_role(x) if x is not None else None for x in ro])
     return r
 
 
@@ -332,6 +381,11 @@ def reshape(ex, state, a, newshape, line):
             raise Unsupported('reshape to a list of symbolic length at line %d' % line)
         newshape = newshape.items
     newshape = [zi(s) for s in newshape]
+    if any(z3.is_int_value(z3.simplify(s)) and z3.simplify(s).as_long() == -1 for s in newshape):
+        free = _infer_minus_one(a.shape, roles_of(a), newshape)
+        if free is None:
+            raise Unsupported('reshape with -1 whose free axis is not a run of axes of the operand at line %d' % line)
+        newshape = [free if (z3.is_int_value(z3.simplify(s)) and z3.simplify(s).as_long() == -1) else s for s in newshape]
     ex.ctx.oblige(state, 'reshape-size', line, prod(a.shape) == prod(newshape), 'cannot reshape array into the requested shape')
     for s in newshape:
         ex.ctx.oblige(state, 'reshape-nonneg', line, s >= 0)
@@ -359,39 +413,90 @@ def reshape(ex, state, a, newshape, line):
     return res
 
 
+def _same(x, y):
+    c = z3.simplify(zi(x) == zi(y))
+    if z3.is_true(c):
+        return True
+    if z3.is_false(c):
+        return False
+    from vt.e1.values import PROVER
+    return PROVER['decide'](c) is True if PROVER.get('decide') is not None else False
+
+
+def _components(shape, roles):
+    """the elementary (role, length) legs of an array, merged axes expanded"""
+    out = []
+    for n, r in zip(shape, roles):
+        out.extend(r.parts if isinstance(r, MRole) else [(r, n)])
+    return out
+
+
 def _group_roles(old_shape, roles, new_shape):
-    """roles of a reshaped array when every new axis is (syntactically) the product of a run of old axes and the axes of the run
-    that are not of length 1 all carry the same role; or the other way round (a merged axis split again).  None otherwise."""
-    def same(x, y):
-        c = z3.simplify(zi(x) == zi(y))
-        if z3.is_true(c):
-            return True
-        if z3.is_false(c):
-            return False
-        from vt.e1.values import PROVER
-        return PROVER['decide'](c) is True if PROVER.get('decide') is not None else False
+    """roles of a reshaped array: every new axis must be (provably) the product of a run of elementary legs of the old array
+    (merged axes count with the legs they were merged from, so a merged axis can be split again).  A run whose legs of length
+    other than 1 all carry one role keeps that role; a run of different roles becomes a merged role.  None if no such grouping."""
+    comps = _components(old_shape, roles)
     out, k = [], 0
     for n in new_shape:
-        acc, rs = None, []
-        while k < len(old_shape):
-            acc = old_shape[k] if acc is None else acc * old_shape[k]
-            rs.append(roles[k])
+        acc, run = None, []
+        if _same(n, 1) and not (k < len(comps) and _same(comps[k][1], 1)):
+            out.append('1')                 # a new axis of length 1 that is not an axis of the operand
+            continue
+        while k < len(comps):
+            acc = comps[k][1] if acc is None else acc * comps[k][1]
+            run.append(comps[k])
             k += 1
-            if same(acc, n):
+            if _same(acc, n):
                 break
         else:
             return None
-        if acc is None or not same(acc, n):
+        if acc is None or not _same(acc, n):
             return None
-        real = {r for r in rs if r != '1'}
-        if len(real) > 1 or None in real:
+        real = [(r, m) for r, m in run if r != '1']
+        if any(r is None for r, _ in real):
             return None
-        out.append(real.pop() if real else '1')
-    # trailing axes of length 1 may remain
-    for j in range(k, len(old_shape)):
-        if roles[j] != '1' and not same(old_shape[j], 1):
+        if not real:
+            out.append('1')
+        elif len({r for r, _ in real}) == 1:
+            out.append(real[0][0])          # one leg, or several legs of one kind merged into one mode (two-site blocks)
+        else:
+            out.append(MRole(real))         # a genuinely merged axis: remembers its composition, in order
+    # trailing legs of length 1 may remain
+    for r, m in comps[k:]:
+        if r != '1' and not _same(m, 1):
             return None
     return out
+
+
+def _infer_minus_one(old_shape, roles, newshape):
+    """reshape(..., -1, ...): the free axis is the product of the old axes (legs) left over when the other new axes are matched
+    against runs of old axes from the left and from the right.  Returns the length term or None."""
+    p = [k for k, s in enumerate(newshape) if z3.is_int_value(z3.simplify(zi(s))) and z3.simplify(zi(s)).as_long() == -1]
+    if len(p) != 1:
+        return None
+    p = p[0]
+    comps = _components(old_shape, roles) if roles is not None else [(None, n) for n in old_shape]
+    lo = 0
+    for n in newshape[:p]:
+        acc = None
+        while lo < len(comps):
+            acc = comps[lo][1] if acc is None else acc * comps[lo][1]
+            lo += 1
+            if _same(acc, n):
+                break
+        else:
+            return None
+    hi = len(comps)
+    for n in reversed(newshape[p + 1:]):
+        acc = None
+        while hi > lo:
+            hi -= 1
+            acc = comps[hi][1] if acc is None else comps[hi][1] * acc
+            if _same(acc, n):
+                break
+        else:
+            return None
+    return prod([c[1] for c in comps[lo:hi]]) if hi > lo else z3.IntVal(1)
 
 
 def tensordot(ex, state, a, b, axes, line):
@@ -434,7 +539,7 @@ def tensordot(ex, state, a, b, axes, line):
     if ra is not None and rb is not None:
         for x, y in zip(ax_a, ax_b):
             if ra[x] is not None and rb[y] is not None:
-                ex.ctx.oblige(state, 'sesquilinear-structure', line, z3.BoolVal((ra[x], rb[y]) in ROLE_PAIRS),
+                ex.ctx.oblige(state, 'sesquilinear-structure', line, z3.BoolVal(pair_ok(ra[x], rb[y])),
                               'axis %d (%s) of the first array is contracted with axis %d (%s) of the second: these legs of <bra|A|ket> do not pair' % (x, ra[x], y, rb[y]))
         set_roles(res, [r for k, r in enumerate(ra) if k not in ax_a] + [r for k, r in enumerate(rb) if k not in ax_b])
     # L-iso (product): (k x r) with orthonormal rows times a right-orthonormal core (r, m, n, r') is right-orthonormal;
@@ -491,9 +596,16 @@ def einsum(ex, state, subscripts, operands, line):
     if known:
         for ch, rs in role.items():
             if ch not in out and len(rs) == 2 and rs[0] is not None and rs[1] is not None:
-                ex.ctx.oblige(state, 'sesquilinear-structure', line, z3.BoolVal((rs[0], rs[1]) in ROLE_PAIRS),
+                ex.ctx.oblige(state, 'sesquilinear-structure', line, z3.BoolVal(pair_ok(rs[0], rs[1])),
                               'einsum letter %r sums an axis of role %s with an axis of role %s: these legs do not pair' % (ch, rs[0], rs[1]))
-        set_roles(res, [role[ch][0] if len(role.get(ch, [])) == 1 else None for ch in out])
+            if ch in out and len(rs) >= 2 and all(r is not None for r in rs):
+                real = {r for r in rs if r != '1'}
+                ex.ctx.oblige(state, 'sesquilinear-structure', line, z3.BoolVal(len(real) <= 1),
+                              'einsum letter %r runs jointly over axes of different roles %s' % (ch, sorted(map(str, real))))
+        def out_role(ch):
+            rs = [r for r in role.get(ch, [None]) if r != '1'] or ['1']
+            return rs[0] if len(set(rs)) == 1 else None
+        set_roles(res, [out_role(ch) for ch in out])
     return res
 
 
@@ -508,6 +620,12 @@ def dot(ex, state, a, b, line):
         ex.ctx.oblige(state, 'dot-shape', line, a.shape[-1] == b.shape[-2], 'shapes not aligned')
         shape = a.shape[:-1] + b.shape[:-2] + b.shape[-1:]
     res = new_arr(state, shape, z3.simplify(z3.Or(a.cplx, b.cplx)))
+    ra, rb = roles_of(a), roles_of(b)
+    if ra is not None and rb is not None:
+        yb = 0 if len(b.shape) == 1 else len(b.shape) - 2
+        ex.ctx.oblige(state, 'sesquilinear-structure', line, z3.BoolVal(pair_ok(ra[-1], rb[yb])),
+                      'the last axis (%s) of the first array is contracted with axis %d (%s) of the second: these legs do not pair' % (ra[-1], yb, rb[yb]))
+        set_roles(res, list(ra[:-1]) + ([] if len(b.shape) == 1 else list(rb[:-2]) + [rb[-1]]))
     return res
 
 
